@@ -759,10 +759,10 @@ func (a *AuthenticateASCII) continueOf(request tq.Request) *tq.AuthenContinue {
 	}
 	return fmt.Errorf("unknown HeaderType value [%v]", t)`}}})
 	addMutant(Mutant{Name: "c10-abort-compared-as-whole-octet", Props: []string{"C10"}, Rule: "R-ABORT", KeySub: "abort-first",
-		Why: "the abort flag is compared as the whole flag octet: a CONTINUE with the abort bit and another bit set is handed on and can end in PASS",
+		Why:   "the abort flag is compared as the whole flag octet: a CONTINUE with the abort bit and another bit set is handed on and can end in PASS",
 		Edits: []Edit{{File: "cmds/server/handlers/authen_ascii.go", Old: `	if body.Flags.Has(tq.AuthenContinueFlagAbort) {`, New: `	if body.Flags == tq.AuthenContinueFlagAbort {`}}})
 	addMutant(Mutant{Name: "c12-sink-write-deferred", Props: []string{"C12"}, Rule: "R-ORDER", KeySub: "sink-before-success",
-		Why: "the sink write is deferred: the SUCCESS reply is on the wire before the record is written",
+		Why:   "the sink write is deferred: the SUCCESS reply is on the wire before the record is written",
 		Edits: []Edit{{File: "cmds/server/config/accounters/local/local.go", Old: `	a.sink.Printf("%s", jsonLog)`, New: `	defer a.sink.Printf("%s", jsonLog)`}}})
 	addMutant(Mutant{Name: "c18-record-stops-at-first-absent-key", Props: []string{"C18"}, Rule: "R-OBSCURE", KeySub: "Record",
 		Why: "the reference logger stops hiding at the first listed key the record does not have: later listed keys are logged in clear",
@@ -801,6 +801,99 @@ func (a *AuthenticateASCII) continueOf(request tq.Request) *tq.AuthenContinue {
 		Why: "the provider build takes over the storage of the list it is replacing: lookups in flight read elements being overwritten",
 		Edits: []Edit{{File: "cmds/server/loader/loader.go", Old: `	providers := make([]tq.SecretProvider, 0, len(c.Secrets))`, New: `	providers := l.lastBuilt[:0]`}, {File: "cmds/server/loader/loader.go", Old: `type Loader struct {`, New: `type Loader struct {
 	lastBuilt []tq.SecretProvider`}}})
+	addMutant(Mutant{Name: "c01-encoder-fast-path-returns-own-bytes", Props: []string{"C01"}, Rule: "R-LAYOUT", KeySub: "AuthorReply:encoder",
+		Why: "the authorization reply encoder gets a fast path that returns bytes laid out by a helper (message length in the data-length slot)",
+		Edits: []Edit{{File: "authorize.go", Old: `	buf := make([]byte, 0, AuthorReplyLen)
+	buf = append(buf, uint8(a.Status))
+	buf = append(buf, uint8(len(a.Args)))`, New: `	if len(a.Args) == 0 && len(a.Data) == 0 {
+		fast := make([]byte, AuthorReplyLen, AuthorReplyLen+len(a.ServerMsg))
+		fast[0] = uint8(a.Status)
+		fast[AuthorReplyLen-1] = uint8(len(a.ServerMsg))
+		return append(fast, a.ServerMsg...), nil
+	}
+	buf := make([]byte, 0, AuthorReplyLen)
+	buf = append(buf, uint8(a.Status))
+	buf = append(buf, uint8(len(a.Args)))`}}})
+	addMutant(Mutant{Name: "c02-ascii-predicate-looks-at-every-other-octet", Props: []string{"C02"}, Rule: "R-ASCII", KeySub: "isAllASCII",
+		Why: "the ASCII test strides by two: non-ASCII octets at odd positions pass every ASCII-only validator",
+		Edits: []Edit{{File: "packet.go", Old: `	for i := 0; i < len(s); i++ {
+		if s[i] > unicode.MaxASCII {`, New: `	for i := 0; i < len(s); i += 2 {
+		if s[i] > unicode.MaxASCII {`}}})
+	addMutant(Mutant{Name: "c04-args-validated-as-a-list-only", Props: []string{"C04"}, Rule: "R-VALIDATE-FIELDS", KeySub: "AuthorReply.Validate:Args",
+		Why: "the reply validator checks the argument list as a whole (ASCII only) and no longer each argument (length 2..255)",
+		Edits: []Edit{{File: "authorize.go", Old: `	for _, t := range []Field{a.Status, a.ServerMsg, a.Data} {
+		if err := t.Validate(nil); err != nil {
+			return err
+		}
+	}
+	for _, t := range a.Args {
+		if err := t.Validate(nil); err != nil {
+			return err
+		}
+	}
+	return nil
+}
+
+// MarshalBinary encodes AuthorReply into tacacs bytes`, New: `	for _, t := range []Field{a.Status, a.ServerMsg, a.Data, a.Args} {
+		if err := t.Validate(nil); err != nil {
+			return err
+		}
+	}
+	return nil
+}
+
+// MarshalBinary encodes AuthorReply into tacacs bytes`}}})
+	addMutant(Mutant{Name: "c12-success-under-a-bit-test", Props: []string{"C12"}, Rule: "R-ORDER", KeySub: "flags-compared-whole",
+		Why: "the start acknowledgement is given when the start bit is set, whatever else is: start+stop is acknowledged",
+		Edits: []Edit{{File: "cmds/server/config/accounters/local/local.go", Old: `	switch body.Flags {
+	case tq.AcctFlagStart:`, New: `	if body.Flags.Has(tq.AcctFlagStart) {
+		response.Reply(
+			tq.NewAcctReply(
+				tq.SetAcctReplyStatus(tq.AcctReplyStatusSuccess),
+				tq.SetAcctReplyServerMsg("success, logging started"),
+			),
+		)
+		return
+	}
+	switch body.Flags {
+	case tq.AcctFlagStart:`}}})
+	addMutant(Mutant{Name: "c13-authenticators-cached-by-user-name-across-scopes", Props: []string{"C13"}, Rule: "R-ADMIT", KeySub: "no-cross-scope-state",
+		Why: "the build keeps authenticators in a map keyed by user name that lives across the loop over the scopes: a user of the second scope gets the first scope's credential",
+		Edits: []Edit{{File: "cmds/server/loader/loader.go", Old: `					a, err := af.New(u.Name, u.Authenticator.Options)`, New: `					a, err := authenticators.get(af, u)`}, {File: "cmds/server/loader/loader.go", Old: `	providers := make([]tq.SecretProvider, 0, len(c.Secrets))`, New: `	providers := make([]tq.SecretProvider, 0, len(c.Secrets))
+	authenticators := make(authCache)`}, {File: "cmds/server/loader/loader.go", Old: `type Loader struct {`, New: `type authCache map[string]tq.Handler
+
+func (s authCache) get(af authenticatorFactory, u config.User) (tq.Handler, error) {
+	if a, ok := s[u.Name]; ok {
+		return a, nil
+	}
+	a, err := af.New(u.Name, u.Authenticator.Options)
+	if err == nil {
+		s[u.Name] = a
+	}
+	return a, err
+}
+
+type Loader struct {`}}})
+	addMutant(Mutant{Name: "c16-kept-configuration-scrubbed-before-replacing", Props: []string{"C16"}, Rule: "R-FRESHDECODE", KeySub: "published-written",
+		Why: "the YAML loader blanks the secrets of the configuration it kept before replacing it: the slice is shared with the value already published",
+		Edits: []Edit{{File: "cmds/server/loader/yaml/yaml.go", Old: `	l.ServerConfig = c
+	l.config <- c`, New: `	for i := range l.ServerConfig.Secrets {
+		l.ServerConfig.Secrets[i].Name = ""
+	}
+	l.ServerConfig = c
+	l.config <- c`}}})
+	addMutant(Mutant{Name: "c19-decoder-trims-arguments", Props: []string{"C19", "C01", "C02"}, Rule: "R-LAYOUT", KeySub: "AuthorReply:decoder",
+		Why: "the reply decoder trims blanks off every argument it reads: a consistent body no longer adds up and is taken for a key mismatch",
+		Edits: []Edit{{File: "authorize.go", Old: `	for _, n := range argLens {
+		a.Args = append(a.Args, Arg(buf.string(n)))
+	}
+	// detect secret mismatch
+	if a.Len() != serverMsgLen+dataLen+totalArgLen {`, New: `	for _, n := range argLens {
+		a.Args = append(a.Args, Arg(strings.TrimSpace(buf.string(n))))
+	}
+	// detect secret mismatch
+	if a.Len() != serverMsgLen+dataLen+totalArgLen {`}, {File: "authorize.go", Old: `import (`, New: `import (
+	"strings"`}}})
 	addMutant(Mutant{Name: "c14-asv-without-negative-check", Props: []string{"C14"}, Rule: "R-BOUNDS", KeySub: "ASV",
 		Why: "Arg.ASV slices at the separator index without handling 'not found'",
 		Edits: []Edit{{File: "authorize_fields.go", Old: `	if i < 0 {
